@@ -30,16 +30,3 @@ s.push_stream(1, 2, REQ); s.push_stream(1, 4, REQ)
 t('resp on 2', lambda: s.send_headers(2, [(':status','200')])); t('resp on 4', lambda: s.send_headers(4, [(':status','200')]))
 print(' server open_outbound', s.open_outbound_streams, 'remote max', s.remote_settings.max_concurrent_streams)
 t(' client recv', lambda: [type(e).__name__ for e in c.receive_data(s.data_to_send())]); print(' client open_inbound', c.open_inbound_streams, 'local max', c.local_settings.max_concurrent_streams)
-# C20(i): headers on reset+forgotten stream at limit
-c,s = pair()
-s.update_settings({SC.MAX_CONCURRENT_STREAMS: 1}); c.receive_data(s.data_to_send()); s.receive_data(c.data_to_send())
-c.send_headers(1, REQ); s.receive_data(c.data_to_send()); s.reset_stream(1); s.data_to_send(); c.receive_data(b'')
-c2h = c.data_to_send()
-c.streams.clear()  # (client side irrelevant) 
-# client opens 3 (allowed from its view after seeing RST? it hasn't) -- craft frames by hand instead
-from hpack import Encoder
-enc = c.encoder
-f3 = hf.HeadersFrame(3); f3.data = enc.encode(REQ); f3.flags.add('END_HEADERS')
-s.receive_data(f3.serialize())            # stream 3 open, stream 1 cleaned up (forgotten into _closed_streams)
-f1 = hf.HeadersFrame(1); f1.data = enc.encode([('x-trailer','abcdefghij')]); f1.flags.update(['END_HEADERS','END_STREAM'])
-t('trailers on reset stream 1 at limit', lambda: s.receive_data(f1.serialize()))
